@@ -163,18 +163,18 @@ def sweep(ctx, step=1):
 def gen_switch_history(rng, n, ctx):
     """credential updates interleaved with connection set-up and tear-down (C18): rewrite the default directory, switch
     XCM_TLS_CERT, per-socket overrides; established connections are pinged after every update"""
-    cmds = ["D a1 rootA -", "D a2 rootA+rootB crlA-empty dirB", "ENV default", "SRV 0 %s -" % rng.choice(["btls", "tls"])]
+    cmds = ["D a1 rootA -", "D a2 rootA+rootB crlA-empty dirB", "D viaInter-chain rootA - dirLong", "ENV default", "SRV 0 %s -" % rng.choice(["btls", "tls"])]
     live = []      # (pair id, expected cli_sees, expected acc_sees)
     pid = 0
     valid = ["a1", "a2", "viaInter-chain"]
     for _ in range(n):
         r = rng.below(100)
         if r < 25:
-            d = rng.choice(["default", "dirB"])
-            cmds.append("D %s %s %s%s" % (rng.choice(valid), rng.choice(["rootA", "rootA+rootB"]), rng.choice(["-", "crlA-empty"]), "" if d == "default" else " dirB"))
+            d = rng.choice(["default", "dirB", "dirLong"])      # dirLong: a directory path of 246 characters
+            cmds.append("D %s %s %s%s" % (rng.choice(valid), rng.choice(["rootA", "rootA+rootB"]), rng.choice(["-", "crlA-empty"]), "" if d == "default" else " " + d))
             ctx.count("tls.switch.rewrite_dir")
         elif r < 35:
-            cmds.append("ENV %s" % rng.choice(["default", "dirB"]))
+            cmds.append("ENV %s" % rng.choice(["default", "dirB", "dirLong"]))
             ctx.count("tls.switch.env")
         elif r < 45:
             cmds.append("SRV %d %s %s" % (rng.below(2), rng.choice(["btls", "tls"]), rng.choice(["-", "-", "cert=b1,tc=rootA+rootB", "certv=a1,tcv=rootA"])))
@@ -189,9 +189,16 @@ def gen_switch_history(rng, n, ctx):
         elif live:
             cmds.append("PING %d" % rng.choice(live))
         if len(live) > 12:
-            cmds.append("CLOSE %d" % live.pop(0))
+            # closed, or handed over to a forked child and dropped with xcm_cleanup (the forking-server pattern)
+            cmds.append("%s %d" % ("FORKCLEAN" if rng.chance(1, 3) else "CLOSE", live.pop(0)))
     for p in live[-6:]:
         cmds.append("PING %d" % p)
+    # tear everything down: once the last socket using it is gone, no cached TLS context may be left
+    for i, p in enumerate(sorted(set(live))):
+        cmds.append("%s %d" % ("FORKCLEAN" if i % 2 else "CLOSE", p))
+    for p in range(16):
+        cmds.append("CLOSE %d" % p)
+    cmds += ["CLOSESRV 0", "CLOSESRV 1", "CTXLIVE"]
     return cmds
 
 
@@ -247,8 +254,16 @@ def check_switch(ctx, cmds, model, out):
                 if ml != il:
                     ctx.corr_break("sys_tls", "CON without server differs: %s" % cmd, rep)
                 continue
-            compare(ctx, cmd, ml, il, rep)
             m, f = fields(ml), fields(il)
+            if m.get("server") == "ok" and m.get("client") == "accepts" and m.get("accepted") == "accepts" and \
+                    f.get("server") == "ok" and not (f.get("client") == "ok" and f.get("accepted") == "ok"):
+                # C18: the material designated at this moment is valid and sufficient, yet the connection was not established
+                ctx.violation("sys_tls:switch:designated-credentials-not-used", "a connection whose designated credentials satisfy both sides' policy was "
+                              "not established - the material in use is not the designated one: %s | expected certificates %s / %s | %s" % (
+                                  cmd, m.get("cli_sees"), m.get("acc_sees"), il), rep)
+                seen.pop(int(w[1]), None)
+                continue
+            compare(ctx, cmd, ml, il, rep)
             if m.get("client") == "accepts" and m.get("accepted") == "accepts" and f.get("client") == "ok" and f.get("accepted") == "ok":
                 cs, as_ = f["cli_sees"].split(":")[0], f["acc_sees"].split(":")[0]
                 want_acc = "-" if "auth=0" in w[4].split(",") else m["acc_sees"]      # without tls.auth no client certificate is requested
@@ -267,5 +282,10 @@ def check_switch(ctx, cmds, model, out):
                     ctx.violation("sys_tls:switch:established-broken", "an established connection stopped working after credential updates: %s -> %s" % (cmd, il), rep)
                 elif (f["cli_sees"], f["acc_sees"]) != seen[p]:
                     ctx.violation("sys_tls:switch:established-changed", "an established connection's peer credentials changed: %s -> %s (was %s)" % (cmd, il, seen[p]), rep)
-        elif w[0] == "CLOSE":
+        elif w[0] in ("CLOSE", "FORKCLEAN"):
             seen.pop(int(w[1]), None)
+        elif w[0] == "CTXLIVE":
+            if il != "live_ctx=0":
+                ctx.violation("sys_tls:switch:contexts-not-released", "every TLS socket of the process has been closed or cleaned up, yet cached TLS "
+                              "contexts (certificate, private key, trust store) are still alive: %s" % il,
+                              {"harness": "sys_tls", "ops": cmds, "impl_out": il})
